@@ -608,10 +608,13 @@ def esc(s):
 
 def key_text(k):
     import re
+    if _CHAIN[0] and not _CHAIN_STRKEY_OFF[0]:
+        return esc(k)       # the second text writes every context key as a string literal: the same entry name, known to later entries alike
     return k if re.match(r"^[A-Za-z_][A-Za-z0-9_]*( [A-Za-z_][A-Za-z0-9_]*)*$", k) and k not in KEYWORDS else esc(k)
 
 
 _CHAIN = [False]
+_CHAIN_STRKEY_OFF = [False]
 POSTFIX = ("path", "filter", "call", "calln")
 
 
